@@ -83,3 +83,160 @@ func (st *Store) DumpKVForVerif() (kvs [][2][]byte) {
 	})
 	return kvs
 }
+
+// ---------------------------------------------------------------------------------------------
+// Heap dump (verification of copy-on-write / ownership between the working tree and saved
+// versions). Everything below is read-only and free of side effects: unlike GetNode it neither
+// reorders the node cache nor inserts into it, so dumping does not change what later reads see.
+
+// HeapNode is one node as a reader would reach it at this moment.
+type HeapNode struct {
+	// Ref is the *Node object itself, boxed as an opaque identity (compare with ==; holding it keeps
+	// the object alive so that its address cannot be reused). Nil when the node was decoded from the
+	// DB only for this dump (How == 'd') or is missing (How == 'x').
+	Ref interface{}
+	// How the node was reached from its parent (or as a root): 'r' root handle of the tree object,
+	// 'p' in-memory child pointer, 'c' node-cache entry for the child hash, 'd' decoded from the DB
+	// record under the child hash (not in the cache), 'x' neither cached nor on disk.
+	How         byte
+	Key, Value  []byte
+	Height      int8
+	Size        int64
+	Version     int64
+	Hash        []byte // memoised hash (nil if none)
+	LeftHash    []byte
+	RightHash   []byte
+	HasLeftPtr  bool
+	HasRightPtr bool
+	Persisted   bool
+}
+
+func heapNodeOf(n *Node, how byte, boxed bool) HeapNode {
+	hn := HeapNode{How: how, Key: n.key, Value: n.value, Height: n.height, Size: n.size, Version: n.version,
+		Hash: n.hash, LeftHash: n.leftHash, RightHash: n.rightHash,
+		HasLeftPtr: n.leftNode != nil, HasRightPtr: n.rightNode != nil, Persisted: n.persisted}
+	if boxed {
+		hn.Ref = n
+	}
+	return hn
+}
+
+// peekNodeForVerif resolves a hash the way GetNode would (cache first, then DB) but without touching
+// the LRU order and without caching the decoded node.
+func (ndb *nodeDB) peekNodeForVerif(hash []byte) (n *Node, how byte) {
+	if len(hash) == 0 {
+		return nil, 'x'
+	}
+	ndb.mtx.Lock()
+	defer ndb.mtx.Unlock()
+	if elem, ok := ndb.nodeCache[string(hash)]; ok {
+		return elem.Value.(*Node), 'c'
+	}
+	return ndb.diskNodeForVerif(hash)
+}
+
+// diskNodeForVerif decodes the DB record stored under hash (nil, 'x' if there is none).
+func (ndb *nodeDB) diskNodeForVerif(hash []byte) (*Node, byte) {
+	buf, err := ndb.db.Get(ndb.nodeKey(hash))
+	if err != nil || buf == nil {
+		return nil, 'x'
+	}
+	node, err := MakeNode(buf)
+	if err != nil {
+		return nil, 'x'
+	}
+	node.hash = hash
+	node.persisted = true
+	return node, 'd'
+}
+
+func dumpHeapFrom(ndb *nodeDB, root *Node, how byte) []HeapNode {
+	var out []HeapNode
+	var walk func(n *Node, how byte)
+	child := func(ptr *Node, hash []byte) {
+		if ptr != nil {
+			walk(ptr, 'p')
+			return
+		}
+		var c *Node
+		h := byte('x')
+		if ndb != nil {
+			c, h = ndb.peekNodeForVerif(hash)
+		}
+		if c == nil {
+			out = append(out, HeapNode{How: 'x', Hash: hash})
+			return
+		}
+		walk(c, h)
+	}
+	walk = func(n *Node, how byte) {
+		out = append(out, heapNodeOf(n, how, how != 'd'))
+		if n.isLeaf() {
+			return
+		}
+		child(n.leftNode, n.leftHash)
+		child(n.rightNode, n.rightHash)
+	}
+	if root != nil {
+		walk(root, how)
+	}
+	return out
+}
+
+// DumpHeapForVerif returns the nodes below the tree's root handle in pre-order (node, left subtree,
+// right subtree); a missing child is a single entry with How == 'x'. Empty tree: empty slice.
+func (t *ImmutableTree) DumpHeapForVerif() []HeapNode {
+	if t == nil || t.root == nil {
+		return nil
+	}
+	return dumpHeapFrom(t.ndb, t.root, 'r')
+}
+
+// DumpLastSavedHeapForVerif dumps the tree Rollback would return to.
+func (tree *MutableTree) DumpLastSavedHeapForVerif() []HeapNode {
+	return tree.lastSaved.DumpHeapForVerif()
+}
+
+// DumpVersionHeapForVerif dumps a saved version starting from the root hash recorded in the DB, the
+// way GetImmutable/LazyLoadVersion would find it now. exists is false if there is no root record;
+// an empty saved tree gives (nil, true).
+func (tree *MutableTree) DumpVersionHeapForVerif(version int64) (nodes []HeapNode, exists bool) {
+	rootHash, err := tree.ndb.getRoot(version)
+	if err != nil || rootHash == nil {
+		return nil, false
+	}
+	if len(rootHash) == 0 {
+		return nil, true
+	}
+	n, how := tree.ndb.peekNodeForVerif(rootHash)
+	if n == nil {
+		return []HeapNode{{How: 'x', Hash: rootHash}}, true
+	}
+	return dumpHeapFrom(tree.ndb, n, how), true
+}
+
+// DiskNodeForVerif decodes the DB record stored under hash, bypassing the node cache.
+func (tree *MutableTree) DiskNodeForVerif(hash []byte) (HeapNode, bool) {
+	if len(hash) == 0 {
+		return HeapNode{}, false
+	}
+	tree.ndb.mtx.Lock()
+	defer tree.ndb.mtx.Unlock()
+	n, _ := tree.ndb.diskNodeForVerif(hash)
+	if n == nil {
+		return HeapNode{}, false
+	}
+	return heapNodeOf(n, 'd', false), true
+}
+
+// NodeCacheForVerif lists the nodes held by the node cache, least recently used first.
+func (tree *MutableTree) NodeCacheForVerif() []HeapNode {
+	ndb := tree.ndb
+	ndb.mtx.Lock()
+	defer ndb.mtx.Unlock()
+	var out []HeapNode
+	for e := ndb.nodeCacheQueue.Front(); e != nil; e = e.Next() {
+		out = append(out, heapNodeOf(e.Value.(*Node), 'c', true))
+	}
+	return out
+}
